@@ -346,6 +346,17 @@ def gen_boundary(rng, tier, ops):
         else:
             ops.append(mk(fn, big, lim, ch=0x61 + 22, tag="limit"))
             ops.append(mk(fn, big, lim, ch=0x7A, tag="limit"))
+    # a KNOWN object larger than the limit, dmax inside it (truthful): helpers called with dmax must not report on their own
+    bigger = [0x61 + (i % 23) for i in range(lim + 7)] + [0]
+    for fn in CMP + SRCH + CHRS:
+        kwb = dict(bos=lim + 8, tag="bigbos")
+        if fn in CMP:
+            ops.append(mk(fn, bigger, lim + 4, bigger if fn == "strcmpfld_s" else src_obj([0x61, 0x62]), **kwb))
+        elif fn in SRCH:
+            ops.append(mk(fn, bigger, lim + 4, src_obj([0x61 + 22, 0x61], 2), 2, **kwb))
+        else:
+            ops.append(mk(fn, bigger, lim + 4, ch=0x61 + 22, **kwb))
+            ops.append(mk(fn, bigger, lim + 8, ch=0x7A, **kwb))
     for fn in CHRM:
         ops.append(mk(fn, big, lim, ch=0x61 + 22, tag="limit"))
         ops.append(mk(fn, big, lim, ch=0, tag="limit"))
@@ -393,6 +404,15 @@ def gen_constraints(rng, tier, ops):
                 k2["slen"] = slen
                 ops.append(mk(fn, D, 4, sbos=sbos, tag="sbos", **k2))
                 ops.append(mk(fn, D8, 4, bos=8, sbos=sbos, tag="sbos+bos", **k2))
+        if has_src and fn in HAS_SLEN:
+            # src == dest: a shortcut for identical pointers must not skip (or reorder past) the size checks
+            for slen in (0, 3, 5, lim, lim + 1, 1 << 40):
+                ops.append(mk(fn, D, 4, None, slen, same=True, tag="same+slen"))
+                for sbos in (2, 8):
+                    if slen == 5 and fn not in MCMP:
+                        continue     # slen > dmax has its own documented answer in the searches; keep one violation per case
+                    ops.append(mk(fn, D, 4, None, slen, same=True, sbos=sbos, tag="same+sbos"))
+            ops.append(mk(fn, D8, 9, None, 2, same=True, bos=8, tag="same+bos"))
         if fn in MCMP:
             # the documented limit is in elements; the objects cannot be that large here (declarations untruthful)
             for dlen in (lim // 2, lim // 2 + 1, lim, lim + 1):
@@ -581,7 +601,12 @@ def annotate(op):
     if dmax == 0:
         viol.add(ESZEROL); names.append("dmax-zero")
     if dmax > lim:
-        viol.add(ESLEMAX); names.append("dmax-max")
+        if bos is not None and dmax <= bos and not mem:
+            # a known object that really is that large: CHK_DEST_OVR lets it through by design; rejecting it with
+            # the documented ESLEMAX is acceptable too — but whatever happens must be reported consistently
+            opt.add(ESLEMAX); names.append("dmax-max-within-bos")
+        else:
+            viol.add(ESLEMAX); names.append("dmax-max")
     if bos is not None and dmax > bos:
         viol.add(EOVERFLOW); names.append("dmax-bos")
     if fn in HAS_SLEN:
@@ -710,7 +735,7 @@ def o_C10(op, ob, before):
     cls = (m.get("cls") or ["plain"])[0]
     if code not in (EOK, ESNOTFND):
         if code in m.get("viol_opt", ()):
-            if fn == "strrchr_s" and (exp["val"] is not None):
+            if fn == "strrchr_s" and code == ESZEROL and (exp["val"] is not None):
                 out.append(Fail("C10", "%s:error-on-valid-operands:ret=%s:%s" % (fn, code, cls),
                                 "standard result: found at %s" % exp["val"]))
             return out
